@@ -114,7 +114,7 @@ def gen_cases(ctx):
         yield {"kind": "tsn", "cls": "StereoMolGraph", "a": pg_to_json(pg), "bseed": rng.randrange(1 << 30)}
 
 
-def _labels(kind, g, pg, stereo):
+def _labels(kind, g, pg, stereo, change=False):
     if kind == "default":
         return None, {a: v["atom_type"] for a, v in pg["atoms"].items()}
     if kind == "constant":
@@ -132,7 +132,8 @@ def _labels(kind, g, pg, stereo):
             arr = cr.color_refine_mg(g, atom_labels=cr.label_hash(g, ("atom_type",)))
         elif cname == "StereoMolGraph":
             arr = cr.color_refine_smg(g, atom_labels=cr.label_hash(g, ("atom_type",)))
-        elif cname == "CondensedReactionGraph" or not stereo:
+        elif cname == "CondensedReactionGraph" or not (stereo and change):
+            # colours that see less than the enumeration mode checks never exclude a valid mapping
             arr = cr.color_refine_crg(g, atom_labels=cr.label_hash(g, ("atom_type", "reaction")))
         else:
             arr = cr.color_refine_scrg(g, atom_labels=cr.label_hash(g, ("atom_type", "reaction")))
@@ -169,8 +170,8 @@ def check_case(ctx, case):
     ga, gb = build(a, rng=brng), build(b, rng=brng)
     if kind == "small" and lk == "colour" and (not a["atoms"] or not b["atoms"]):
         lk = "default"
-    la, ra = _labels(lk, ga, a, stereo)
-    lb, rb = _labels(lk, gb, b, stereo)
+    la, ra = _labels(lk, ga, a, stereo, change)
+    lb, rb = _labels(lk, gb, b, stereo, change)
     ref = [dict(m) for m in sem.iter_isos(_with_labels(a, ra), _with_labels(b, rb), stereo=stereo, changes=change, budget=5_000_000)]
     _diag["on"] = kind == "small"
     r0, b0 = _diag["reverts"], _diag["bad"]
